@@ -254,6 +254,30 @@ pub fn gen_inputs(rng: &mut StdRng, n: usize, with_trailing: bool) -> Vec<Input>
             f.blocks.push(XzBlock { payload: s2, content: o2, ..Default::default() });
         }
         let mut d = f.serialize().bytes;
+        if with_trailing {
+            // "arbitrary trailing bytes": also a complete second stream of the same format (what `cat a.xz b.xz`
+            // gives), and lengths that are multiples of 256 / 65536 (a length kept in a narrow integer reads as 0)
+            let file = d.clone();
+            let mut extra: Vec<Vec<u8>> = vec![file.clone()];
+            match i % 4 {
+                0 => extra.push(vec![0u8; 65536]),
+                1 => extra.push((0..65536u32).map(|x| (x * 7 + 1) as u8 | 1).collect()),
+                2 => extra.push(vec![0x33u8; 256]),
+                _ => extra.push(vec![0x33u8; 131072]),
+            }
+            for t in extra {
+                let mut dd = file.clone();
+                dd.extend_from_slice(&t);
+                v.push(Input { fmt: Fmt::Xz, data: dd, name: format!("xz-then-more/{}blocks+{}", f.blocks.len(), t.len()), payload_len: None });
+                // the same behind an .lzma stream that ends with the marker
+                let mut dm = lzma_header(p, 4096, Some(u64::MAX));
+                dm.extend_from_slice(&encm.payload);
+                let own = dm.clone();
+                dm.extend_from_slice(if t.len() == file.len() { &own } else { &t });
+                let tl = dm.len() - own.len();
+                v.push(Input { fmt: Fmt::Lzma(Opt::ReadFromHeader), data: dm, name: format!("lzma-marker-then-more/{}syms+{}", ns, tl), payload_len: None });
+            }
+        }
         d.extend_from_slice(&trailing);
         v.push(Input { fmt: Fmt::Xz, data: d, name: format!("xz/{}blocks+{}", f.blocks.len(), trailing.len()), payload_len: None });
         if !with_trailing {
@@ -275,6 +299,15 @@ pub fn gen_inputs(rng: &mut StdRng, n: usize, with_trailing: bool) -> Vec<Input>
                 }
             }
             v.push(Input { fmt: Fmt::Xz, data: g.serialize().bytes, name: format!("xz-aliased-field{}/{}blocks+0", i % 6, g.blocks.len()), payload_len: None });
+        }
+        if !with_trailing {
+            // a block whose declared Compressed Size covers bytes BEHIND the end of its LZMA2 stream (index and padding
+            // consistent with the declaration): an invalid file - the verdict on it must not depend on whether the
+            // whole block happens to be buffered
+            let mut g = f.clone();
+            g.blocks[0].payload.extend_from_slice(&[[0x5Au8, 1, 2, 3], [0, 0, 0, 0], [0, 0, 0, 1]][i % 3][..1 + i % 4]);
+            g.blocks[0].has_packed = true;
+            v.push(Input { fmt: Fmt::Xz, data: g.serialize().bytes, name: format!("xz-junk-inside-declared-size/{}blocks+0", g.blocks.len()), payload_len: None });
         }
         if !with_trailing && i % 2 == 0 {
             // index integers in a non-minimal encoding (self-consistent file): whatever the decoder thinks of them,
